@@ -93,6 +93,40 @@ func definitelyNotNull(v cty.Value) bool {
 	return !o.Panicked && res
 }
 
+// extraBoundsMissing checks, through the range accessors, that an unknown typed
+// result carries the extra declared refinement ("" = it does).
+func extraBoundsMissing(s *script, v cty.Value) string {
+	u, _ := v.Unmark()
+	if u.IsKnown() {
+		return ""
+	}
+	why := ""
+	o := core.Guard(func() {
+		rg := u.Range()
+		if s.retType == cty.Number {
+			lo, loInc := rg.NumberLowerBound()
+			hi, hiInc := rg.NumberUpperBound()
+			if !lo.IsKnown() || !hi.IsKnown() {
+				why = "a bound is unknown"
+				return
+			}
+			cl := lo.AsBigFloat().Cmp(s.numLo.AsBigFloat())
+			ch := hi.AsBigFloat().Cmp(s.numHi.AsBigFloat())
+			if cl < 0 || ch > 0 {
+				why = fmt.Sprintf("number range %#v(inclusive=%v)..%#v(inclusive=%v) is wider than the declared %#v..%#v", lo, loInc, hi, hiInc, s.numLo, s.numHi)
+			}
+			return
+		}
+		if rg.LengthLowerBound() < s.lenLo || rg.LengthUpperBound() > s.lenHi {
+			why = fmt.Sprintf("length range %d..%d is wider than the declared %d..%d", rg.LengthLowerBound(), rg.LengthUpperBound(), s.lenLo, s.lenHi)
+		}
+	})
+	if o.Panicked {
+		return "range accessor panicked: " + o.PanicMsg
+	}
+	return why
+}
+
 func contains(xs []int, x int) bool {
 	for _, y := range xs {
 		if y == x {
@@ -100,6 +134,35 @@ func contains(xs []int, x int) bool {
 		}
 	}
 	return false
+}
+
+// factClass names an argument by the facts the protocol depends on (computed
+// from the value, independently of the generator's intention).
+func factClass(f *model.ProtoArg, p *pspec) string {
+	var k string
+	switch {
+	case f.Dynamic && f.Null:
+		k = "null-of-dynamic"
+	case f.Dynamic:
+		k = "dynamic"
+	case f.Null:
+		k = "null"
+	case f.Unknown:
+		k = "unknown"
+	default:
+		k = "known"
+	}
+	if !f.Dynamic {
+		if model.Conforms(f.Type, p.tn) {
+			k += ",conforming"
+		} else {
+			k += ",non-conforming"
+		}
+	}
+	if f.Marked {
+		k += ",marked"
+	}
+	return k
 }
 
 // runCase executes every operation for one (spec, argument list) pair and
@@ -193,7 +256,16 @@ func runCase(c *core.Ctx, idx int64, s *script, args []cty.Value, classes []stri
 			}
 			return desc()
 		}
+		// narrow input class of the one known way past the conformance assertion:
+		// the Impl callback answers (cty.NilVal, nil) and the checked type is dynamic
+		nilClass := ""
+		if op == opCall && acc.Stage == "impl" && s.implMode == imNil && T == cty.DynamicPseudoType {
+			nilClass = "impl-returns-NilVal,checked-type-dynamic"
+		}
 		viol := func(facet, class, detail string) {
+			if class == "" {
+				class = nilClass
+			}
 			c.Violate(site, facet, class, opDesc(), detail+"; protocol stage: "+acc.Stage+"; acceptable: "+acceptText(&acc))
 		}
 
@@ -255,6 +327,24 @@ func runCase(c *core.Ctx, idx int64, s *script, args []cty.Value, classes []stri
 	}
 	c.Count(fmt.Sprintf("spec:positional=%d,variadic=%v", len(s.params), s.varp != nil))
 	c.Count(fmt.Sprintf("args:len=%d", len(args)))
+	if s.viaDesc {
+		c.Count("route:WithNewDescriptions")
+	}
+	if s.refine {
+		if s.refineExtra {
+			c.Count("refine:NotNull+range")
+		} else {
+			c.Count("refine:NotNull")
+		}
+	}
+	if reachedImpl {
+		c.Count(fmt.Sprintf("impl-reached:%s:args=%d", origin, len(args)))
+	}
+	if arityOK {
+		for i, f := range factsOf(args) {
+			c.Count("argfact:" + factClass(&f, s.paramFor(i)))
+		}
+	}
 	for i, cl := range classes {
 		c.Count("argclass:" + cl)
 		if p := s.paramFor(i); p != nil {
@@ -270,6 +360,11 @@ func runCase(c *core.Ctx, idx int64, s *script, args []cty.Value, classes []stri
 // refinement must hold for every result of the implementation (otherwise the
 // library is documented to panic).
 func normalize(s *script, args []cty.Value) {
+	defer func() {
+		if s.refineExtra && !s.admitExtra() {
+			s.refineExtra = false
+		}
+	}()
 	if !s.refine {
 		return
 	}
@@ -572,7 +667,7 @@ func successWhereErrorFacet(acc *model.ProtoAccept) string {
 }
 
 func requiredMarks(acc *model.ProtoAccept, given []cty.Value) cty.ValueMarks {
-	out := cty.NewValueMarks()
+	out := cty.ValueMarks{} // not cty.NewValueMarks(): that returns a nil map for zero marks
 	for _, i := range acc.Unmark {
 		for k := range mon.DeepMarks(given[i]) {
 			out[k] = struct{}{}
@@ -634,8 +729,15 @@ func checkValueResult(c *core.Ctx, s *script, op int, acc *model.ProtoAccept, va
 		marksOK()
 		if s.refine && T != cty.DynamicPseudoType {
 			c.Count("clause:refinement-applied")
+			c.Count("refined:short-circuit")
 			if !definitelyNotNull(val) {
 				viol("declared NotNull refinement missing from a typed result", "", got)
+			}
+			if s.refineExtra {
+				c.Count("clause:extra-refinement-applied")
+				if why := extraBoundsMissing(s, val); why != "" {
+					viol("declared range refinement missing from a typed result", "", got+"; "+why)
+				}
 			}
 		}
 	case acc.Value:
@@ -648,7 +750,7 @@ func checkValueResult(c *core.Ctx, s *script, op int, acc *model.ProtoAccept, va
 		exp := mon.StripMarks(implVal)
 		typed := exp.IsKnown() || exp.Type() != cty.DynamicPseudoType
 		if s.refine && !exp.IsKnown() && typed {
-			exp = exp.RefineNotNull()
+			exp = exp.RefineWith(s.refineWith)
 		}
 		c.Count("clause:result-is-impl-result")
 		if !sameVal(mon.StripMarks(val), exp) {
@@ -661,9 +763,23 @@ func checkValueResult(c *core.Ctx, s *script, op int, acc *model.ProtoAccept, va
 		}
 		if s.refine && typed {
 			c.Count("clause:refinement-applied")
+			if exp.IsKnown() {
+				c.Count("refined:known-result")
+			} else {
+				c.Count("refined:unknown-impl-result")
+			}
 			if !definitelyNotNull(val) {
 				viol("declared NotNull refinement missing from a typed result", "", got)
 			}
+			if s.refineExtra && !exp.IsKnown() {
+				c.Count("clause:extra-refinement-applied")
+				if why := extraBoundsMissing(s, val); why != "" {
+					viol("declared range refinement missing from a typed result", "", got+"; "+why)
+				}
+			}
+		}
+		if s.refine && !typed {
+			c.Count("refined:not-applicable-dynamic-unknown")
 		}
 	default:
 		c.Count("outcome:" + name + ":value")
